@@ -145,6 +145,9 @@ pub struct ChainCase {
     pub small_stack: bool,
     /// keep verification-at-drop enabled for the original (its verdict is irrelevant here)
     pub verify: bool,
+    /// the instances end their lives while their thread is unwinding from a user panic (dropped by the unwinding)
+    #[serde(default)]
+    pub teardown_by_unwinding: bool,
 }
 
 enum Lent<'a> {
@@ -577,7 +580,15 @@ fn execute_on(
     while insts.len() > 1 {
         let i = insts.len() - 1;
         let c = insts.pop().unwrap();
-        if catch(move || drop(c)).is_err() {
+        if case.teardown_by_unwinding {
+            let r = catch(move || {
+                let _dies_here = c;
+                panic!("USER-PANIC-UNWINDING-THE-INSTANCE");
+            });
+            if !r.err().map(|m| m.contains("USER-PANIC-UNWINDING")).unwrap_or(false) {
+                return Err("HARNESS: the unwinding teardown did not end with the user panic".to_string());
+            }
+        } else if catch(move || drop(c)).is_err() {
             return Err("dropping a clone panicked".to_string());
         }
         book.zst_releasable += std::mem::take(&mut book.zst_owned[i]);
@@ -595,7 +606,18 @@ fn execute_on(
     let o = insts.pop().unwrap();
     // with verification enabled the drop may legitimately panic (unmet "never called" rules), but
     // every user clone is gone and the lent values (some own a clone) must have been released first
-    if let Err(msg) = catch(move || drop(o)) {
+    let dropped = if case.teardown_by_unwinding {
+        match catch(move || {
+            let _dies_here = o;
+            panic!("USER-PANIC-UNWINDING-THE-INSTANCE");
+        }) {
+            Err(m) if m.contains("USER-PANIC-UNWINDING") => Ok(()),
+            other => other,
+        }
+    } else {
+        catch(move || drop(o))
+    };
+    if let Err(msg) = dropped {
         if msg.contains("clones still alive") {
             return Err(format!("dropping the original after every clone was dropped: the values it lent were not released before its verification: {msg}"));
         }
@@ -643,6 +665,9 @@ fn execute_on(
     }
     if case.small_stack {
         classes.push("dropped-on-small-stack".to_string());
+    }
+    if case.teardown_by_unwinding {
+        classes.push("instances-dropped-by-an-unwinding-thread".to_string());
     }
     Ok((stats.same_type_reread, classes))
 }
@@ -733,14 +758,16 @@ pub fn case_strategy(max_threads: u8, max_per_thread: u16) -> impl Strategy<Valu
         prop_oneof![3 => Just(0u8), 1 => 2..=max_threads],
         1..=max_per_thread,
         any::<bool>(),
+        proptest::bool::weighted(0.3),
     )
-        .prop_map(|(clones, phases, threads, per_thread, small_stack)| ChainCase {
+        .prop_map(|(clones, phases, threads, per_thread, small_stack, teardown_by_unwinding)| ChainCase {
             clones,
             phases,
             threads,
             per_thread,
             small_stack,
             verify: per_thread % 2 == 0,
+            teardown_by_unwinding,
         })
 }
 
@@ -760,17 +787,18 @@ pub fn deep_cases() -> Vec<ChainCase> {
                     per_thread: 1,
                     small_stack,
                     verify: bursts == 80,
+                    teardown_by_unwinding: false,
                 });
             }
         }
     }
     for threads in [2u8, 4, 8] {
-        out.push(ChainCase { clones: 0, phases: vec![], threads, per_thread: 2000, small_stack: true, verify: false });
+        out.push(ChainCase { clones: 0, phases: vec![], threads, per_thread: 2000, small_stack: true, verify: false, teardown_by_unwinding: false });
     }
     out
 }
 
-pub const RULE: &str = "cases = 1-4 phases of up to 12 lending operations (make_ref of Tracked / a second tracked type / u32 / String, calls answered by an answer function using make_ref, calls answered by a returns()-configured borrowed value, calls through a default body running on the delegation helper, bursts of 64-256 values) spread over the original and up to 3 clones, each phase optionally closed by make_mut / a make_mut-answered &mut return, then optionally 2-8 threads lending concurrently through a shared &Unimock, then teardown (optionally on a 192 KiB stack). After every operation every reference obtained so far is re-read against a shadow copy and the drop registry is checked. deep = long chains (5k-51k values) and 2-8 threads x 2000 values. Non-trivial = >= 3 consecutive held values of the same type on one instance re-read after later pushes in a phase of >= 4 operations; distinct = distinct case";
+pub const RULE: &str = "cases = 1-4 phases of up to 12 lending operations (make_ref of Tracked / a second tracked type / u32 / String, calls answered by an answer function using make_ref, calls answered by a returns()-configured borrowed value, calls through a default body running on the delegation helper, bursts of 64-256 values) spread over the original and up to 3 clones, each phase optionally closed by make_mut / a make_mut-answered &mut return, then optionally 2-8 threads lending concurrently through a shared &Unimock, then teardown (optionally on a 192 KiB stack, optionally by letting a user panic unwind through the scope that owns the instance). After every operation every reference obtained so far is re-read against a shadow copy and the drop registry is checked. deep = long chains (5k-51k values) and 2-8 threads x 2000 values. Non-trivial = >= 3 consecutive held values of the same type on one instance re-read after later pushes in a phase of >= 4 operations; distinct = distinct case";
 
 pub fn run(ctx: &Ctx) -> Verdict {
     let mut v = Verdict::new("exploration", RULE);
